@@ -2,6 +2,7 @@ import JoblibProofs.Lemmas.ParallelProto
 import JoblibProofs.Lemmas.AutoBatch
 import JoblibProofs.Lemmas.ParallelSeq
 import JoblibProofs.Lemmas.EvalExpr
+import JoblibProofs.Lemmas.ParallelReconf
 /-!
 # C09 — Parallel consumes its input lazily, boundedly and from one thread at a time
 
@@ -591,5 +592,44 @@ example : intDenote (.binOp .sub (.binOp .floorDiv (.binOp .mult (.const (.int 3
       (.binOp .mod (.binOp .pow (.const (.int 2)) (.const (.int 5))) (.const (.int 7)))) = true := by decide
 
 end EvalExprSection
+
+/-! ### the configuration of the object changes between calls (`JoblibModel.ParallelReconf`, round 5)
+
+The bounds above (`lookahead_bound_state`, `lookahead_bound_user`, `parked_bound`, …) are statements about ONE call with the
+`Cfg` it runs under, from any idle start state: they do not mention how the object was configured in earlier calls. In the model
+of a sequence of calls with a configuration per call (`runCallsV`: `p.n_jobs` / the backend's worker count, `p.pre_dispatch`,
+`p.batch_size`, `p.timeout` reassigned between calls) every call is the old `runCallF` applied with ITS configuration - nothing
+of an earlier configuration is carried over - and the event-log correspondence ties the code to that. -/
+
+/-- Conservative extension: with the same configuration at every call the per-call model is the old scenario model
+(so every theorem about `runScenarioF` / `runScenario` speaks about these scenarios unchanged). -/
+theorem reconf_same_cfg_is_old_model (c : JoblibModel.ParallelProto.Cfg) (guard : Bool) (enter : JoblibModel.ParallelStartup.Fault)
+    (calls : List (JoblibModel.ParallelProto.CallSpec × JoblibModel.ParallelStartup.Fault)) (sched : List (List Nat)) :
+    JoblibModel.ParallelReconf.runScenarioV c guard enter (calls.map (fun x => (c, x.1, x.2))) sched =
+      JoblibModel.ParallelStartup.runScenarioF c guard enter calls sched :=
+  JoblibModel.ParallelReconf.runScenarioV_same c guard enter calls sched
+
+/-- Each call of a reconfigured object runs the one-call model under its OWN configuration: the step of `runCallsV` for the
+call `(c, spec, f)` is `runCallF c …` whatever the configurations `cprev` of the earlier calls were (they only serve the hook
+point before the call, where late completions of the earlier call are delivered). -/
+theorem reconf_call_uses_its_own_cfg (guard : Bool) (fuel k base : Nat) (cprev c : JoblibModel.ParallelProto.Cfg)
+    (spec : JoblibModel.ParallelProto.CallSpec) (f : JoblibModel.ParallelStartup.Fault)
+    (rest : List (JoblibModel.ParallelProto.Cfg × JoblibModel.ParallelProto.CallSpec × JoblibModel.ParallelStartup.Fault))
+    (s : JoblibModel.ParallelProto.St) (hh : s.hung = false) :
+    JoblibModel.ParallelReconf.runCallsV guard fuel k base cprev ((c, spec, f) :: rest) s =
+      JoblibModel.ParallelReconf.runCallsV guard fuel (k + 1) (base + spec.n) c rest
+        (JoblibModel.ParallelStartup.runCallF c guard fuel base spec f
+          (JoblibModel.ParallelProto.ev (if k ≥ 1 then JoblibModel.ParallelProto.hook cprev false s else s) ("call " ++ toString k))) := by
+  simp [JoblibModel.ParallelReconf.runCallsV, hh]
+
+/-- Seed m2 of round 5 as a witness: one object, `pre_dispatch='2*n_jobs'`, first call with 8 workers (amount 16), second call
+with 2 workers (amount 4), 20 tasks, no completion during pre-dispatch: the second call takes exactly 4 items before it waits
+(the first call's 16 would exceed that call's bound `(4 + 2) * 1 = 6`). -/
+example : ((JoblibModel.ParallelReconf.runScenarioV ⟨8, false, [1], 2, 16, 0, -1, false, true⟩ true {}
+      [(⟨8, false, [1], 2, 16, 0, -1, false, true⟩, ⟨1, [], -1, []⟩, {}),
+       (⟨2, false, [1], 2, 4, 0, -1, false, true⟩, ⟨20, [], -1, []⟩, {})] []).dropWhile (· != "call 1")).take 12 =
+    ["call 1", "configure", "start_call", "pull 1", "pull 2", "submit 1", "submit 2", "pull 3", "pull 4", "submit 3", "submit 4",
+     "complete 1"] := by
+  decide +kernel
 
 end C09
